@@ -348,7 +348,7 @@ pub fn run(ctx: &Ctx) -> i32 {
     let s1e = SubReport::new("link-targets", "A", &format!("every sequence of ≤ {} tokens over {:?} ({} strings, incl. the empty one) as the link target of a symbolic-link entry at /link, /opt/link and ./a/b/link (targets that climb above the root, absolute, empty, with redundant components); oracle: Ok or Err, never a panic. non-trivial = accepted", llen, ltok, nl), a5);
 
     // ---- capability text (the acceptance iff is C19's; here: no panic and unknown text is an error)
-    let ctoks = ["cap_chown", "all", "bogus", ",", "=", "+", "e", "p", " ", "\t", "é", "\0"];
+    let ctoks = ["cap_chown", "all", "bogus", ",", "=", "+", "e", "p", " ", "\t", "é", "\0", "cap_", "E", "P", "_v2"];
     let n2 = strings_count(ctoks.len(), 4);
     let b = merge(par_fold(n2, Acc::new, |i, acc| {
         let mut t = vec![];
@@ -367,14 +367,14 @@ pub fn run(ctx: &Ctx) -> i32 {
             Ok(Ok(_)) => {
                 acc.nontrivial += 1;
                 acc.count("accepted");
-                if text.contains("bogus") || text.contains('é') || text.contains('\0') {
+                if !vlib::capsref::accepts(&text) {
                     acc.viol(Violation::new("capabilities", format!("unknown capability text {:?} accepted", text), case()).sig("clause", "unknown-capability-accepted").rank(i));
                 }
                 acc.sample(i, || json!({"caps": text, "accepted": true}));
             }
         }
     }));
-    let s2 = SubReport::new("capabilities", "A", &format!("every sequence of ≤ 4 tokens over {:?} ({} strings) through FileOptions::caps + with_file + build; oracle: no panic, rejection is InvalidCapabilities, text with an unknown name / non-ASCII / NUL is rejected", ctoks, n2), b);
+    let s2 = SubReport::new("capabilities", "A", &format!("every sequence of ≤ 4 tokens over {:?} ({} strings) through FileOptions::caps + with_file + build; oracle: no panic, rejection is InvalidCapabilities, text that the capability grammar (DESIGN A.4) does not accept — an unknown name such as cap_cap_chown or cap_chown_v2, upper-case flags, non-ASCII, NUL — is rejected", ctoks, n2), b);
 
     // ---- compression levels
     let mut levels: Vec<(String, CompressionWithLevel)> = vec![("none".into(), CompressionWithLevel::None)];
